@@ -392,9 +392,6 @@ def expected : List Expect := [
   ⟨"cisco/diff.go", "sortGroups", "cf.lookup[\"object-group\"]", 0, "6395d1ea26ee3486", "effects", .perObject, "site_sortGroups"⟩,
   ⟨"cisco/diff.go", "State.ignoreCryptoGDOI", "rm", 0, "c5f575c32be34800", "delete-only", .ownKey, "site_ignoreCryptoGDOI"⟩,
   ⟨"cisco/parse.go", "parser.addDefaults", "defaultObjects", 0, "996d5e17f1eedab6", "effects", .ownKey, "site_addDefaults"⟩,
-  ⟨"cisco/parse.go", "postprocessParsed", "lookup[\"access-list\"]", 0, "5d0469923421f37f", "effects", .perObjectConst, "site_rewriteAndSetTypeRef"⟩,
-  ⟨"cisco/parse.go", "postprocessParsed", "lookup[\"ip access-list extended\"]", 0, "989c7411bd56e1ca", "effects", .perObject, "site_rewriteCommands"⟩,
-  ⟨"cisco/parse.go", "postprocessParsed/setTransRef", "lookup[prefix]", 0, "ddf2662e75f5f6f4", "effects", .perObjectConst, "site_rewriteAndSetTypeRef"⟩,
   ⟨"cisco/parse.go", "postprocessParsed/stripPFSDefault", "lookup[prefix]", 0, "abb0f3481b8c7d0e", "effects", .perObject, "site_rewriteCommands"⟩,
   ⟨"cisco/parse.go", "postprocessParsed/stripMetric", "lookup[prefix]", 0, "27656f5f09f31db5", "effects", .perObject, "site_rewriteCommands"⟩,
   ⟨"cisco/parse.go", "postprocessParsed", "lookup[\"crypto ca certificate map\"]", 0, "e7303b37b46ec64b", "effects", .perObject, "site_rewriteCommands"⟩,
@@ -412,6 +409,8 @@ def repaired : List (String × String × String) := [
   ("cisco/parse.go", "parser.checkReferences", "lookup"),
   ("cisco/parse.go", "parser.checkReferences", "m"),
   ("cisco/parse.go", "postprocessParsed", "m"),
+  ("cisco/parse.go", "postprocessParsed/setTransRef", "m"),
+  ("cisco/parse.go", "postprocessParsed", "acls"),
   ("cisco/config.go", "Config.MergeSpoc", "b.lookup"),
   ("cisco/config.go", "Config.MergeSpoc", "bMap"),
   ("linux/config.go", "config.MergeSpoc", "b.iptables"),
